@@ -337,6 +337,13 @@ func RelLockLostItsCoin(tx *wire.MsgTx, before, after ce.UtxoSet) bool {
 		if okOld && (!okNow || now.Height != old.Height) {
 			return true
 		}
+		// the transaction was itself confirmed before the reorganisation (its coin was spent in the old
+		// chain) and was handed back while the coin's block was still connected; the coin's block was
+		// disconnected afterwards: a non-zero lock now counts from an unconfirmed coin, which no
+		// admission allows
+		if !okOld && !okNow && ti.Sequence&0xffff != 0 {
+			return true
+		}
 	}
 	return false
 }
